@@ -277,6 +277,9 @@ package ha
 //@   ensures c.failoversCompleted == old(c.failoversCompleted) ==> c.currentRole == lockedN(1, c.currentRole) || c.currentRole == lockedN(2, c.currentRole)
 //@   ensures c.failoversCompleted == old(c.failoversCompleted) ==> c.state == FailoverStateNormal || c.state == lockedN(1, c.state)
 //@   ensures c.failoversInitiated == old(c.failoversInitiated) || c.failoversInitiated == (old(c.failoversInitiated) + 1) % 18446744073709551616
+// a promotion is carried out only for a failover that is pending or in progress: a stale timer or
+// a repeated command that finds any other state (normal, complete, failback pending) does nothing
+//@   ensures lockedN(1, c.state) != FailoverStatePending && lockedN(1, c.state) != FailoverStateInProgress ==> c.failoversCompleted == old(c.failoversCompleted) && c.failoversInitiated == old(c.failoversInitiated)
 // per critical section (program order: acquisitions 1 = entry, 2 = callback-failure path, 3 =
 // success path; releases 1 = early return, 2 = end of the first section, 3 = failure path,
 // 4 = success path): the first section never writes the role and only moves pending/in-progress
@@ -298,6 +301,8 @@ package ha
 //@   ensures c.failbacksCompleted != old(c.failbacksCompleted) ==> c.currentRole == c.originalRole && c.state == FailoverStateNormal
 //@   ensures c.failbacksCompleted != old(c.failbacksCompleted) ==> exists t mathint {healthAt(t)} :: old(now()) <= t && t <= now() && healthAt(t)
 //@   ensures c.failbacksCompleted == old(c.failbacksCompleted) ==> c.currentRole == lockedN(1, c.currentRole) || c.currentRole == lockedN(2, c.currentRole)
+// a failback is carried out only when one is pending
+//@   ensures lockedN(1, c.state) != FailoverStateFailbackPending ==> c.failbacksCompleted == old(c.failbacksCompleted)
 // releases: 1 = not failback-pending, 2 = partner unhealthy, 3 = end of the first section,
 // 4 = callback-failure path, 5 = success path
 //@   ensures unlockedN(1, c.currentRole) == lockedN(1, c.currentRole) && unlockedN(2, c.currentRole) == lockedN(1, c.currentRole) && unlockedN(3, c.currentRole) == lockedN(1, c.currentRole)
